@@ -183,32 +183,32 @@ ExtDelete(s, o) ==
     /\ last' = [op |-> "extdel"]
     /\ UNCHANGED <<ridx, delivered, unfin, dev, nx>> /\ NoXfer
 
-\* odb.check(oid)
+\* odb.check(oid); ro = the store handle was opened read-only (that restricts adding, not integrity checking)
 CheckRes(S, s, o) ==
     CASE S[s][o] = Absent -> "FileNotFoundError"
       [] S[s][o] = "bad_u" -> "ObjectFormatError"
       [] OTHER -> "ok"
-Check(s, o) ==
+Check(s, o, ro) ==
     /\ Idle /\ "check" \in Ops
     /\ store' = [store EXCEPT ![s][o] =
                     CASE @ = "bad_u" -> Absent
                       [] @ = "ok_u" /\ Local(s) -> "ok_p"
                       [] OTHER -> @]
     /\ last' = [op |-> "check", res |-> CheckRes(store, s, o)]
-    /\ act' = [op |-> "Check", s |-> s, o |-> o]
+    /\ act' = [op |-> "Check", s |-> s, o |-> o, ro |-> ro]
     /\ UNCHANGED <<ridx, hvars>> /\ NoXfer
 
 \* status(odb, ids, index?, shallow); an expanding query whose trees cannot be loaded
 \* raises FileNotFoundError before asking the store anything
 Refused(opname) == [op |-> opname, exc |-> "FileNotFoundError"]
-Status(s, ids, shallow, useIdx) ==
+Status(s, ids, shallow, useIdx, ro) ==
     /\ Idle /\ "status" \in Ops
     /\ IF ~Loadable(store, s, ids, shallow)
        THEN /\ last' = Refused("status") /\ UNCHANGED <<store, ridx>>
        ELSE LET q == StatusOf(store, ridx, s, ids, shallow, useIdx, s)
             IN /\ store' = q.S /\ ridx' = q.R
                /\ last' = [op |-> "status", exists |-> q.exists, missing |-> q.missing]
-    /\ act' = [op |-> "Status", s |-> s, ids |-> ids, shallow |-> shallow, idx |-> useIdx]
+    /\ act' = [op |-> "Status", s |-> s, ids |-> ids, shallow |-> shallow, idx |-> useIdx, ro |-> ro]
     /\ UNCHANGED hvars /\ NoXfer
 
 \* compare_status(src, dst, ids, check_deleted=True): dst is asked first (trees from src), then src
@@ -426,8 +426,8 @@ Next ==
     \/ \E s \in AddTargets, x \in Oids : AddObj(s, x)
     \/ \E s \in Stores, o \in Files : Tamper(s, o)
     \/ \E s \in Stores, o \in Oids : ExtDelete(s, o)
-    \/ \E s \in Stores, o \in Oids : Check(s, o)
-    \/ \E s \in Stores, ids \in Requests, m \in Modes : Status(s, ids, m[1], m[2])
+    \/ \E s \in Stores, o \in Oids, ro \in BOOLEAN : Check(s, o, ro)
+    \/ \E s \in Stores, ids \in Requests, m \in Modes, ro \in BOOLEAN : Status(s, ids, m[1], m[2], ro)
     \/ \E p \in XferPairs, ids \in Requests, m \in Modes : CompareStatus(p[1], p[2], ids, m[1])
     \/ \E s \in Stores, used \in Requests, sh \in BOOLEAN, dry \in BOOLEAN : Gc(s, used, {}, "used-first", sh, dry, FALSE)
     \/ BeginAny
